@@ -1155,9 +1155,58 @@ def model_hasattr(interp, args, kwargs, node):
         raise
 
 
-@model(any, all)
-def model_anyall(interp, args, kwargs, node):
-    raise OutOfSubset('any/all over symbolic values is handled by the caller-specific model')
+@model(iter)
+def model_iter(interp, args, kwargs, node):
+    x = args[0]
+    items = concrete_iter(interp, x)
+    if items is None:
+        raise OutOfSubset('iter() of a symbolic-length iterable')
+    return iter(items) if not hasattr(items, '__next__') else items
+
+
+@model(next)
+def model_next(interp, args, kwargs, node):
+    try:
+        return next(*args)
+    except StopIteration as ex:
+        from .interp import PyRaise
+        raise PyRaise(ex)
+
+
+@model(all)
+def model_all(interp, args, kwargs, node):
+    items = concrete_iter(interp, args[0])
+    if items is None:
+        raise OutOfSubset('all() over a symbolic-length iterable')
+    terms = []
+    for x in items:
+        t = truth(x)
+        if isinstance(t, bool):
+            if not t:
+                return False
+        else:
+            terms.append(t)
+    if not terms:
+        return True
+    return simplify_value(SBool(z3.And(*terms)))
+
+
+@model(any)
+def model_any(interp, args, kwargs, node):
+    items = concrete_iter(interp, args[0])
+    if items is None:
+        raise OutOfSubset('any() over a symbolic-length iterable')
+    terms = []
+    for x in items:
+        t = truth(x)
+        if isinstance(t, bool):
+            if t:
+                return True
+        else:
+            terms.append(t)
+    if not terms:
+        return False
+    return simplify_value(SBool(z3.Or(*terms)))
 
 
 # ---- numpy ----------------------------------------------------------------------------------------
